@@ -604,7 +604,19 @@ func (o *c05Oracle) scalarNumber(k string, f *c05Fld, text, route string, fv ref
 	if n.Cmp(lo) < 0 || n.Cmp(hi) > 0 {
 		o.hot = true
 		o.class("int-out-of-kind-range")
-		o.fail(route, "%s: %s does not fit %s", p, text, k)
+		// The known root causes only cover values the 64-bit intermediate can hold:
+		// direct route: Int64() (and the explicit "< 0" test for unsigned kinds);
+		// setValue route: ParseInt / ParseUint with 64 bits. Anything else accepted is a new defect.
+		known := ""
+		switch {
+		case route == c05RouteDirect && n.Cmp(c05MinInt64) >= 0 && n.Cmp(c05MaxInt64) <= 0 && !(c05IsUint(k) && n.Sign() < 0):
+			known = route
+		case route == c05RouteSet && !c05IsUint(k) && n.Cmp(c05MinInt64) >= 0 && n.Cmp(c05MaxInt64) <= 0:
+			known = route
+		case route == c05RouteSet && c05IsUint(k) && n.Sign() >= 0 && n.Cmp(c05MaxUint64) <= 0:
+			known = route
+		}
+		o.fail(known, "%s: %s does not fit %s", p, text, k)
 		return
 	}
 	if n.Cmp(lo) == 0 || n.Cmp(hi) == 0 {
